@@ -366,6 +366,40 @@ Fixpoint proc (f : flags) (r : role) (c : ctx) (loc : env) {struct r} : res :=
 (* Load: the root is processed under the environment's three maps *)
 Definition load (c : ctx) (r : role) : res := proc coded r c [].
 
+(* ---------- what the model assumes about the source: which field is processed in which stage ----------
+   compared (Load_proofs.stages_as_modelled) with the table the translator regenerates from the
+   template.Sequence literals of the three ProcessTemplates on every run.  Kinds 0 task, 1 call,
+   2 aggregator.  [own]/[stages] above: enabled in stage 0 with the "disabled" check right after
+   it; defaults 1; vars 2; (own user vars 3: empty at load time); name and the kind's further
+   fields 4; constraints and channel fields 5 (the call role's second pass over its already
+   processed `enabled` in stage 5 changes nothing). *)
+Definition sn_Enabled : str := [69;110;97;98;108;101;100].
+Definition sn_Defaults : str := [68;101;102;97;117;108;116;115].
+Definition sn_Vars : str := [86;97;114;115].
+Definition sn_UserVars : str := [85;115;101;114;86;97;114;115].
+Definition sn_Name : str := [78;97;109;101].
+Definition sn_Load : str := [76;111;97;100;84;97;115;107;67;108;97;115;115].
+Definition sn_Timeout : str := [84;105;109;101;111;117;116].
+Definition sn_Trigger : str := [84;114;105;103;103;101;114].
+Definition sn_Await : str := [65;119;97;105;116].
+Definition sn_Func : str := [70;117;110;99;67;97;108;108].
+Definition sn_Return : str := [82;101;116;117;114;110;86;97;114].
+Definition sn_Constraints : str := [67;111;110;115;116;114;97;105;110;116;115].
+Definition sn_BindConnect : str := [66;105;110;100;67;111;110;110;101;99;116].
+Definition model_stage_prefix : list (N * list str) :=
+  [(0, [sn_Enabled]); (1, [sn_Defaults]); (2, [sn_Vars]); (3, [sn_UserVars])].
+Definition model_stage_table : list (N * list (N * list str)) :=
+  [ (0, model_stage_prefix ++
+        [(4, [sn_Name; sn_Load; sn_Timeout; sn_Trigger; sn_Await]);
+         (5, [sn_Constraints; sn_BindConnect])]);
+    (1, model_stage_prefix ++
+        [(4, [sn_Name; sn_Func; sn_Return; sn_Timeout; sn_Trigger; sn_Await]);
+         (5, [sn_Constraints; sn_BindConnect; sn_Enabled])]);
+    (2, model_stage_prefix ++
+        [(4, [sn_Name]); (5, [sn_Constraints; sn_BindConnect])]) ].
+Definition model_stage_count : N := 6.
+Definition model_disabled_check_stage : N := 0.
+
 (* ---------- concurrency: work trees and schedules ----------
    Every role is processed by its own goroutine when the switches are on: a goroutine first runs
    the role's own sequence (reads: the frozen maps of its ancestors; writes: its own fields), then
